@@ -23,6 +23,11 @@ structure Inst where
   selFileOn : List (Int × Bool)
   selStrOn : List (Int × Bool)
   selFileName : List (Int × String)
+  /-- a database is loaded (`DatabaseLoaded`): Run* calls read their input only then -/
+  loaded : Bool
+  /-- SELECTED_OUTPUT blocks the engine holds (`Phreeqc::SelectedOutput_map`), in definition order: user number ↦ the
+  `-file` name if one was given -/
+  engSel : List (Int × Option String)
 
 def selName (n : Int) (id : Nat) : String := s!"selected_{n}.{id}.out"
 
@@ -33,7 +38,8 @@ def fresh (id : Nat) : Inst :=
     name := fun n => match n with
       | .out => s!"phreeqc.{id}.out" | .err => s!"phreeqc.{id}.err"
       | .log => s!"phreeqc.{id}.log" | .dump => s!"dump.{id}.out",
-    cur := 1, selFileOn := [(1, false)], selStrOn := [(1, false)], selFileName := [(1, selName 1 id)] }
+    cur := 1, selFileOn := [(1, false)], selStrOn := [(1, false)], selFileName := [(1, selName 1 id)],
+    loaded := false, engSel := [] }
 
 def setAssoc {β} (m : List (Int × β)) (k : Int) (v : β) : List (Int × β) :=
   (k, v) :: m.filter (fun p => p.1 ≠ k)
@@ -62,6 +68,41 @@ def Inst.setSelName (i : Inst) (v : Option String) : Inst :=
   | none => i
 def Inst.getSelName (i : Inst) : String := (i.selFileName.lookup i.cur).getD ""
 
+/-- `UnLoadDatabase()`, the first thing every `LoadDatabase*` call does (whether or not the load then succeeds): the current
+user number and the two per-number switch maps return to their initial state, the engine forgets its SELECTED_OUTPUT
+blocks; switches, the four file names and the per-number file-name map are user settings and are kept -/
+def Inst.unload (i : Inst) (ok : Bool) : Inst :=
+  { i with cur := 1, selFileOn := [(1, false)], selStrOn := [(1, false)], loaded := ok, engSel := [] }
+
+/-- file-name rule of `IPhreeqc::punch_open(n)`: a `-file` name given in the block wins; otherwise an empty or missing
+entry gets the default name, which embeds the user number and the instance id -/
+def Inst.punchName (i : Inst) (n : Int) : Inst :=
+  match (i.engSel.lookup n).join with
+  | some f => if f.isEmpty then
+                (if ((i.selFileName.lookup n).getD "").isEmpty then { i with selFileName := setAssoc i.selFileName n (selName n i.id) } else i)
+              else { i with selFileName := setAssoc i.selFileName n f }
+  | none => if ((i.selFileName.lookup n).getD "").isEmpty then { i with selFileName := setAssoc i.selFileName n (selName n i.id) } else i
+
+/-- a `Run*` call whose input is one `SELECTED_OUTPUT n` block (with options, so that it counts as a new definition) and an
+optional `-file` name: the block is stored (a redefinition without `-file` inherits the earlier name), its file is opened
+through `punch_open`; then every block whose file switch is on and whose stream is closed is re-opened the same way.
+Without a loaded database the call fails before reading anything. Result = number of errors. -/
+def Inst.defSel (i : Inst) (n : Int) (file : Option String) : Inst × Int :=
+  if !i.loaded then (i, 1) else
+  let inherited : Option String := match file with
+    | some f => some f
+    | none => (i.engSel.lookup n).join
+  let i1 : Inst := { i with engSel := (i.engSel.filter (fun (p : Int × Option String) => p.1 ≠ n)) ++ [(n, inherited)] }
+  let i2 : Inst := i1.punchName n
+  let reopened : List Int := (i2.engSel.map (fun (p : Int × Option String) => p.1)).filter (fun k => k ≠ n && (i2.selFileOn.lookup k).getD false)
+  (reopened.foldl (fun j k => j.punchName k) i2, 0)
+
+/-- a `Run*` call whose input defines nothing: only the re-opening of the files of existing blocks happens -/
+def Inst.rerun (i : Inst) : Inst × Int :=
+  if !i.loaded then (i, 1) else
+  let reopened : List Int := (i.engSel.map (fun (p : Int × Option String) => p.1)).filter (fun k => (i.selFileOn.lookup k).getD false)
+  (reopened.foldl (fun j k => j.punchName k) i, 0)
+
 /-- API-level operations (the C functions of IPhreeqc.h restricted to the settings store) -/
 inductive Call where
   | setSw (s : Sw) (v : Bool) | getSw (s : Sw)
@@ -69,6 +110,7 @@ inductive Call where
   | setCur (n : Int) | getCur
   | setSelFileOn (v : Bool) | getSelFileOn | setSelStrOn (v : Bool) | getSelStrOn
   | setSelName (v : Option String) | getSelName
+  | unload (ok : Bool) | defSel (n : Int) (file : Option String) | rerun
 
 /-- result of a call: an integer code or a string -/
 inductive Res where
@@ -90,6 +132,9 @@ def Inst.call (i : Inst) : Call → Inst × Res
   | .getSelStrOn => (i, .int (b2i i.getSelStrOn))
   | .setSelName v => (i.setSelName v, .int 0)
   | .getSelName => (i, .str i.getSelName)
+  | .unload ok => (i.unload ok, .int (if ok then 0 else 1))
+  | .defSel n f => let (j, r) := i.defSel n f; (j, .int r)
+  | .rerun => let (j, r) := i.rerun; (j, .int r)
 
 /-- documented invalid-instance result of the C function behind a call -/
 def badResult : Call → Res
